@@ -25,10 +25,10 @@ ENTRY = dict(
                 "every enabled goroutine is eventually scheduled; on the implementation it is a deadline on every call."),
     technique="Lean 4 proof (inductive invariants over all schedules of a channel-level model) + actor differential with model replay + grammar on engine histories",
     lean_modules=["Bpmn.Props.C09", "Bpmn.Props.C09Current"],
-    families=["c09", "c09g", "c09c", "c09x", "c09relay", "c06", "c06loop", "c10", "c11"],
-    harness_files=["c06.go", "c06loop.go", "c10.go", "c11.go", "c11gen.go", "c11match.go"],
+    families=["c09", "c09g", "c09c", "c09x", "c09relay", "c09turns", "c06", "c06loop", "c10", "c11"],
+    harness_files=["c06.go", "c06loop.go", "c10.go", "c11.go", "c11gen.go", "c11match.go", "c12turns.go"],
     exhaustive=False,
-    rule=("c09relay: the context the process was CREATED with cancelled while the context it was started with stays alive (2 or 12 tasks in sequence, the cancel after 0..2 answers) — everything sent afterwards still reaches the subscriber of the instance\'s tracer (all task requests, the end event, the cease-flow trace), a late subscriber joins and leaves; c09x: the shutdown phase — 1..3 REGISTERED senders keep sending after the tracer's context is cancelled at a seeded position, 2..3 subscribers (one fast, the others with buffers 0..2 and pacing consumers) stay until their channels are closed: each holds every trace, all in one order, sender order kept; c09: seeded plans of 1..8 sender goroutines (1..40 numbered traces each, thorough 1..120), 1..4 subscriber slots "
+    rule=("c09turns: the histories of c12turns (several tokens in one sub-process node at once) through the causality grammar — nothing of the inner scope is relayed twice or dropped (D43); c09relay: the context the process was CREATED with cancelled while the context it was started with stays alive (2 or 12 tasks in sequence, the cancel after 0..2 answers) — everything sent afterwards still reaches the subscriber of the instance\'s tracer (all task requests, the end event, the cease-flow trace), a late subscriber joins and leaves; c09x: the shutdown phase — 1..3 REGISTERED senders keep sending after the tracer's context is cancelled at a seeded position, 2..3 subscribers (one fast, the others with buffers 0..2 and pacing consumers) stay until their channels are closed: each holds every trace, all in one order, sender order kept; c09: seeded plans of 1..8 sender goroutines (1..40 numbered traces each, thorough 1..120), 1..4 subscriber slots "
           "with 1..3 subscription episodes each (fresh channel, capacity in {0,1,2,3,5,10,64}, consumer pace 0..3, join at a "
           "generated position of the stream, concurrently with the senders or with the senders paused, leave after a "
           "generated number of traces or stay to the end) against the real tracer, plus a permanent witness subscriber "
